@@ -21,7 +21,7 @@ func (e *env) ibcRecvCases() []string {
 	S, _ := c.Ctx.CacheContext()
 	port, ch := tok.Channel(c, S, 1)
 	vAlias := tok.VoucherDenom(c, S, port, ch, "ualias")
-	alias := tok.AddToken(c, S, "eth", 3, true, vAlias) // base token with the voucher as an alias (many-to-one)
+	alias := tok.AddToken(c, S, "eth", 4, true, vAlias) // base token with the voucher as an alias (many-to-one)
 	own := tok.AddOwnVoucherToken(c, S, port, ch, "uown") // the voucher denom itself is the pair's coin
 	_ = alias
 	// FX that left over this channel earlier sits in escrow and can come back
